@@ -431,14 +431,15 @@ class Recorder:
         install()
         self.desc = desc
         self.frame = build_frame(desc) if frame is None else frame
-        self.ranks = dt_ranks([r[1] for r in desc['rows']]) if 'rows' in desc else dt_ranks(self.frame['dt'])
+        self.ranks = {} if desc.get('light') else (dt_ranks([r[1] for r in desc['rows']]) if 'rows' in desc else dt_ranks(self.frame['dt']))
         self.events = []
         self.chunk = None
         self.prev = None
-        self.trace = {'family': desc.get('family', ''), 'name': desc.get('name', ''), 'exact': True}
+        self.light = bool(desc.get('light'))
+        self.trace = {'family': desc.get('family', ''), 'name': desc.get('name', ''), 'exact': True, 'light': self.light}
 
     def _record(self, op, arg, res, exc, msg, taps):
-        if self.chunk is not None:
+        if self.chunk is not None and not self.light:
             snap = snapshot(self.chunk, self.ranks)
         else:
             snap = {k: (dict(v) if isinstance(v, dict) else v) for k, v in EMPTY_SNAP.items()}
@@ -472,7 +473,13 @@ class Recorder:
                 warnings.simplefilter('ignore')
                 if op == 'construct':
                     self.chunk = CeiloChunk(self.frame, prms=self.desc.get('prms') or None)
-                    self.trace['prm'] = project_prms(self.chunk.prms)
+                    self.trace['prm'] = None if self.light else project_prms(self.chunk.prms)
+                elif op == 'run_api':
+                    import ampycloud
+                    self.chunk = ampycloud.run(self.frame, prms=self.desc.get('prms') or None, geoloc='verif', ref_dt='2026-01-01 00:00:00')
+                    if not isinstance(self.chunk, CeiloChunk):
+                        raise TypeError('run() did not return a CeiloChunk')
+                    self.trace['prm'] = None if self.light else project_prms(self.chunk.prms)
                 elif op in ('find_slices', 'find_groups', 'find_layers'):
                     if self.desc.get('poison'):
                         poison_global()
@@ -496,10 +503,10 @@ class Recorder:
         return self._record(op, arg, res, exc, msg, taps)
 
     def finish(self):
-        self.trace['raw'] = project_rows(self.frame_norm(), self.ranks)
+        self.trace['raw'] = [] if self.light else project_rows(self.frame_norm(), self.ranks)
         check_int_range(self.events)
-        if 'prm' not in self.trace:
-            self.trace['prm'] = None
+        if self.trace.get('prm') is None:
+            self.trace['prm'] = DUMMY_PRM
         self.trace['events'] = self.events
         return self.trace
 
@@ -515,6 +522,8 @@ CANON = [('construct', ''), ('find_slices', ''), ('find_groups', ''), ('find_lay
          ('metar_msg', 'slices'), ('metar_msg', 'groups'), ('metar_msg', 'layers')]
 
 
+DUMMY_PRM = {'hasmsa': False, 'msa': 0, 'buf': 0, 'h0': 0, 'h8': 0, 'p': 5, 'lb': 100, 'excl': [], 'sepv': [250], 'sepl': [],
+             'minokta': 2, 'minpts': 30}
 NO_CANON = {'has': False, 'ng': 'zero', 'merged': False, 'split': False, 'tbl': {w: [] for w in WHICH}, 'msg': {w: [] for w in WHICH},
             'ids': {'s': [], 'g': [], 'l': []}}
 
@@ -552,11 +561,11 @@ def run_scenario(desc):
         ops = desc.get('ops') or CANON
         for op in ops:
             ev = rec.do(op[0], op[1] if len(op) > 1 else '')
-            if op[0] == 'construct' and ev['res'] != 'ok':
+            if op[0] in ('construct', 'run_api') and ev['res'] != 'ok':
                 break
         tr = rec.finish()
         tr['canon'] = canonical_reference(desc) if desc.get('with_canon') else NO_CANON
-        tr['desc'] = {'indomain': bool(desc.get('indomain', True))}
+        tr['desc'] = {'indomain': bool(desc.get('indomain', True)), 'grammar': bool(desc.get('grammar', True))}
         tr['nrows'] = len(desc['rows'])
         return tr
     except Inexact as e:
